@@ -43,8 +43,9 @@ MANIFEST = dict(
          "CPython headers, Lua against an emulator header), and a LINK step: all generated C/C++/Fortran objects plus the library "
          "implementation (upstream sources, or a synthesized stub for generated libraries) into one shared object with --no-undefined.",
     design="3 C05",
-    note="Category 'proof' covers only the logic part (1)-(4). Compilation and linking are observed on sampled inputs, never proved. The link "
-         "step links C/C++/Fortran wrapper objects only (no Python/Lua extension objects); thorough tier: every upstream configuration that "
+    note="Category 'proof' covers only the logic part (1)-(4). Compilation and linking are observed on sampled inputs, never proved. Generated "
+         "files are compiled without -w (it silences -Werror=... diagnostics): implicit function declarations in C and Fortran lines "
+         "beyond 132 columns are errors. The link step links C/C++/Fortran wrapper objects only (no Python/Lua extension objects); thorough tier: every upstream configuration that "
          "ships sources and every generated library, quick tier: 8 configurations and a quarter of the generated libraries. NumPy-using Python "
          "files are skipped (headers absent); Lua files compile against tools/ccheck/luaemu, not Lua. A committed baseline "
          "(corpus/c05_baseline.json, rewritten only by `python -m tools.props.c05 --write-baseline`) makes every file/link that used to "
@@ -614,6 +615,9 @@ VARIANTS = [
     ("cline40", ["C_line_length=40"]),
     ("fline60", ["F_line_length=60"]),
     ("lines", ["C_line_length=50", "F_line_length=72"]),
+    ("cwide", ["C_line_length=1000"]),
+    ("cwide-fnarrow", ["C_line_length=1000", "F_line_length=60"]),
+    ("fwide-cnarrow", ["F_line_length=120", "C_line_length=40"]),
     ("cfi", ["F_CFI=true"]),
     ("cfi-debug", ["F_CFI=true", "debug=true", "literalinclude=true"]),
     ("c-only", ["wrap_fortran=false", "wrap_python=false", "wrap_lua=false"]),
@@ -714,6 +718,8 @@ def feature_specs(r, thorough):
             names = {"base", "debug", "lines", variants[1 + (fi + common.seed()) % (len(variants) - 1)][0]}
             if feat == "callback":
                 names |= {"cfi-debug", "cline40"}
+            if feat in ("long_args", "long_types", "callback"):
+                names |= {"cwide", "cwide-fnarrow", "fwide-cnarrow"}
             if feat in ("assumed_rank", "fmodule_mix"):
                 names |= {"cfi", "cfi-debug"}
             vs = [v for v in variants if v[0] in names]
